@@ -9,7 +9,7 @@ pub fn props() -> Vec<Prop> {
         id: "C13",
         run: c13,
         tools: None,
-        rule: "the same call sequence (a deterministic pass that calls every VirtualFileSystem method, then seeded random histories from the C01 alphabet) is executed on Memfs directly, on Vfs::Memfs(Memfs::new()) and on Memfs::new().upcast(); every call's result and the complete hook snapshot after it must be equal. The same for Stdfs vs Vfs::Stdfs in two freshly created sandboxes (results compared after replacing the sandbox prefix, trees through std::fs). For every VfsEntry obtained (entry(), entries()) all Entry accessors on the enum are compared with the wrapped MemfsEntry/StdfsEntry extracted by pattern match, before and after follow(true)/follow(false)/follow(true). distinct_nontrivial = distinct (backend, method or accessor set, argument class, outcome class) triples. Later additions: a boundary-argument pass (modes 0 / special / with type bits, empty payloads, existing targets, unclean spellings, uid/gid extremes, chowns to distinct ids); a held-builder pass (builders kept across set_cwd / executed twice); a handle visibility script (what other calls see between write / flush / drop of open handles, overlapping append handles); clone steps in the VfsEntry accessor comparison; the Stdfs comparison stops at the first divergence.",
+        rule: "the same call sequence (a deterministic pass that calls every VirtualFileSystem method, then seeded random histories from the C01 alphabet) is executed on Memfs directly, on Vfs::Memfs(Memfs::new()) and on Memfs::new().upcast(); every call's result and the complete hook snapshot after it must be equal. The same for Stdfs vs Vfs::Stdfs in two freshly created sandboxes (results compared after replacing the sandbox prefix, trees through std::fs). For every VfsEntry obtained (entry(), entries()) all Entry accessors on the enum are compared with the wrapped MemfsEntry/StdfsEntry extracted by pattern match, before and after follow(true)/follow(false)/follow(true). distinct_nontrivial = distinct (backend, method or accessor set, argument class, outcome class) triples. Later additions: a boundary-argument pass (modes 0 / special / with type bits, empty payloads, existing targets, unclean spellings, uid/gid extremes, chowns to distinct ids); a held-builder pass (builders kept across set_cwd / executed twice); a handle visibility script (what other calls see between write / flush / drop of open handles, overlapping append handles); clone steps in the VfsEntry accessor comparison; the Stdfs comparison stops at the first divergence. Later addition: a stale-state pass - the working directory removed, replaced by a file or moved away and then named again (by path, by '.'), an entry that changes kind between two identical queries.",
         assumptions: &["the Stdfs half runs as uid 1000 inside a private sandbox directory; set_cwd is exercised on Memfs only (process cwd is shared by the two Stdfs runs)"],
         shards_quick: 8,
         shards_thorough: 16,
@@ -198,6 +198,60 @@ fn boundary_pass() -> Vec<Op> {
 
 /// builders that are kept while the cwd changes, or executed twice: the wrapper has to hand out a builder that
 /// resolves its paths at the same moment as the wrapped backend's builder
+/// Calls whose answer depends on state an EARLIER call left behind and that has gone stale since: the working
+/// directory that was removed, replaced by a file or moved away, then named again (by its path, by "."); an entry
+/// asked for again after it changed kind. A wrapper that remembers or short-cuts anything shows here.
+fn stale_state_pass() -> Vec<Op> {
+    let s = |x: &str| x.to_string();
+    vec![
+        Op::MkdirP(s("/w/d")),
+        Op::SetCwd(s("/w/d")),
+        Op::SetCwd(s("/w/d")), // already there
+        Op::SetCwd(s(".")),
+        Op::Cwd,
+        Op::Remove(s("/w/d")),
+        Op::SetCwd(s("/w/d")), // the recorded cwd no longer exists
+        Op::SetCwd(s(".")),
+        Op::Cwd,
+        Op::Abs(s("x")),
+        Op::Mkfile(s("x")),
+        Op::Mkfile(s("/w/d")), // ... and is a file now
+        Op::SetCwd(s("/w/d")),
+        Op::SetCwd(s(".")),
+        Op::SetCwd(s("/")),
+        Op::MkdirP(s("/m")),
+        Op::SetCwd(s("/m")),
+        Op::MoveP(s("/m"), s("/moved")),
+        Op::SetCwd(s("/m")),
+        Op::SetCwd(s(".")),
+        Op::Cwd,
+        Op::Mkfile(s("y")),
+        Op::Exists(s("/m/y")),
+        Op::Exists(s("/moved/y")),
+        Op::SetCwd(s("/moved")),
+        Op::SetCwd(s("/moved")),
+        Op::Cwd,
+        Op::SetCwd(s("/")),
+        // an entry that changes kind between two identical queries
+        Op::Mkfile(s("/k")),
+        Op::IsFile(s("/k")),
+        Op::Entry(s("/k")),
+        Op::Remove(s("/k")),
+        Op::MkdirP(s("/k")),
+        Op::IsFile(s("/k")),
+        Op::IsDir(s("/k")),
+        Op::Entry(s("/k")),
+        Op::Remove(s("/k")),
+        Op::Symlink(s("/k"), s("/w")),
+        Op::IsDir(s("/k")),
+        Op::IsSymlinkDir(s("/k")),
+        Op::Entry(s("/k")),
+        Op::Mode(s("/k")),
+        Op::Owner(s("/k")),
+        Op::AllPaths(s("/")),
+    ]
+}
+
 fn held_pass() -> Vec<Op> {
     let s = |x: &str| x.to_string();
     let b = |o: Op, c: &[&str]| Op::Held(Box::new(o), c.iter().map(|x| x.to_string()).collect());
@@ -552,6 +606,9 @@ fn c13(ctx: &Ctx, rep: &mut Report) {
     let pass = held_pass();
     run_memfs_transcript(&pass, rep, "held-builder pass");
     run_stdfs_transcript(&pass, &ra, &rb, rep, "held-builder pass");
+    let pass = stale_state_pass();
+    run_memfs_transcript(&pass, rep, "stale-state pass");
+    run_stdfs_transcript(&pass, &ra, &rb, rep, "stale-state pass");
     handle_visibility(&Stdfs::new(), &Vfs::stdfs(), &format!("{}/hvd", ra), &format!("{}/hvd", ra), "Vfs::Stdfs", rep);
     handle_visibility(&Stdfs::new(), &Stdfs::new().upcast(), &format!("{}/hvd", ra), &format!("{}/hvd", ra), "Stdfs::upcast", rep);
     handle_visibility(&Memfs::new(), &Vfs::memfs(), "/hvd", "/hvd", "Vfs::Memfs", rep);
